@@ -14,7 +14,7 @@ ID = "C04"
 LEVEL = "exploration"
 RULE = (
     "(a) calibration invariant, differential at model level: generated reporting/nonreporting frames (n from the minimum "
-    "upward, duplicated rows giving tied scores, equal and wildly unequal baseline weights, negative corrections, alpha "
+    "upward, duplicated rows giving tied scores, equal and wildly unequal baseline weights (the frame's baseline_weights column equal to or unrelated to the estimand's own baseline), negative corrections, alpha "
     "free in (0.05,0.97) or a usual level, robust on/off, with/without a covariate and a fixed effect) go through "
     "NonparametricElectionModel.get_unit_prediction_intervals; the reference takes the UNADJUSTED bounds and the "
     "calibration frame from get_unit_prediction_interval_bounds (same arguments; trusted building block) and computes "
@@ -68,6 +68,7 @@ def diff_case(draw):
         "seed": draw(st.integers(0, 10000)),
         "model_seed": draw(st.integers(0, 50)),
         "twins": draw(st.booleans()),
+        "other_weights": draw(st.booleans()),
     }
 
 
@@ -100,7 +101,9 @@ def diff_frames(c):
             "county_classification": cls,
             "x1": x,
             "last_election_results_turnout": last,
-            "baseline_weights": base,
+            # baseline_weights is the baseline TURNOUT whatever the estimand is; for an estimand like dem it is spread
+            # differently over the units than the estimand's own baseline, which is what the calibration weighs by
+            "baseline_weights": np.round(base * rng.uniform(1.1, 6.0, tot)) if c.get("other_weights") else base,
             "unit_category": "expected",
         }
     )
